@@ -22,7 +22,7 @@
    Not proved (hence partial): that NO internal assertion of a multi-step coroutine can fire for any schedule (1301 is
    evaluated on every trace; two of the four assertion sites need an id-discipline invariant that is not proved);
    the wire layers (JSON / protobuf decoding) are the libraries'. *)
-From RV Require Import Mon MonC13 Valid Route Plug Discipline SysInv PC13.
+From RV Require Import Mon MonC13 Valid Route Plug Discipline SysInv PC13 Spec.WitnessD2.
 
 Theorem C13_front_contract :
   (forall q, req_wf_b q = true -> req_asserts q = true) /\
@@ -73,3 +73,14 @@ Proof.
   - apply Z.eqb_neq in E. split; [discriminate|]. split; intros H; [discriminate|contradiction].
 Qed.
 Print Assumptions C13_transport_reports_an_outcome.
+
+(* REFUTED on the faithful model and on the code (DESIGN D2, known finding): "no client input can poison stored state".
+   Ids containing ':' make the derived callback / task ids coincide; the schedule below (taken from an implementation
+   trace of family `collide`, on which model and code agree event by event) ends in a store batch that fails as a whole:
+   the completion of promise "a" tries to create the task "__notify:a:b:s1", which exists already. *)
+Theorem C13_poison_refuted : exists cfg sch, sch_wf sch /\ C13p_mon (events cfg sch) = [(1302, 28%nat)].
+Proof.
+  exists cfg_d2, sch_d2. split; [|vm_compute; reflexivity].
+  repeat constructor; cbn; auto.
+Qed.
+Print Assumptions C13_poison_refuted.
